@@ -344,8 +344,11 @@ def validator_facts(mod, cls):
                     raise _err(f"validator: class item {o} not supported")
             rs = lean_list(f"({a}, {b})" for a, b in ranges)
             items.append(f".{'plus' if lo == 1 else 'star'} {rs}")
+            RAW.setdefault("classes", []).append(("plus" if lo == 1 else "star", ranges))
         else:
             raise _err(f"validator: unsupported regex item {op} in {pattern!r}")
+    RAW["validator_fn"] = fnname
+    RAW["validator_items"] = [i.split()[0] for i in items]
     return fnname, items
 
 
@@ -403,6 +406,7 @@ def init_facts(cls):
                 else:
                     raise _err(f"__attrs_post_init__: unsupported path component {ast.unparse(c)[:60]}")
             steps.append(f".defaultPath {lean_list(parts)}")
+            RAW["dir_parts"] = [c.value if isinstance(c, ast.Constant) else None for c in comps]
             continue
         if isinstance(st, ast.Expr) and isinstance(st.value, ast.Call):
             t = U(st.value, env)
@@ -571,6 +575,7 @@ def _default_branch(stmts, env) -> str:
     def fp(parts):
         return lean_list(".digest" if k == "digest" else f".lit {lean_chars(v)}" for k, v in parts)
     algo = dg["algo"].replace('"', "")
+    RAW["value_file"], RAW["node_file"] = vparts, nparts
     return ("{ hashed := ." + dg["src"] + f', algo := "{algo}", encoded := {lb(dg["encoded"])}, hex := {lb(dg["hex"])}, '
             f"entryKey := {key}, nodeName := {nname}, valueFile := {fp(vparts)}, persistFile := {fp(nparts)}, "
             f"persistsEntry := {lb(persists_entry)} }}")
@@ -760,6 +765,9 @@ def pickle_facts():
     return load, save, state, sig, checks_abs, ret["path"] == "PATH", ret["name"] == "PATH.as_posix()"
 
 
+RAW: dict = {}   # plain-Python copy of some facts of the last extraction (used by extract_catalog.py for its older, flat facts)
+
+
 SCHEMA = """\
 namespace Cat
 /-- items of the validator's pattern -/
@@ -826,6 +834,7 @@ deriving DecidableEq, Repr
 
 
 def catalogsrc_section() -> list[str]:
+    RAW.clear()
     mod, cls = _catalog_class()
     fnname, items = validator_facts(mod, cls)
     init = init_facts(cls)
